@@ -147,7 +147,7 @@ def run(ctx):
         k += 1
     # rotation by rename + re-creation at the moment a file is being discovered: every line goes to a file of its own, the
     # previous one renamed right before (the name is re-pointed between the notification's stat and the open: D22); probabilistic
-    for i in range(16 if thorough else 6):
+    for i in range(40 if thorough else 14):
         n = 12
         scs.append(scen(k, "rotate-every-line-%d" % k, ["a"] * n, [["open", 0]] + [["append", j] for j in range(1, n + 1)], True, rotate_every=True))
         k += 1
